@@ -14,6 +14,9 @@ import sys
 import time
 import warnings
 
+import tornado.httputil
+import tornado.testing
+
 warnings.filterwarnings('ignore')
 sys.path.insert(0, '/repo')
 os.environ.setdefault('DIFFER_PARALLELISM', '2')
@@ -213,6 +216,85 @@ async def s_broken_then_shutdown(app, start, pids, created):
     return {'pids': seen + pids(), 'pools_at_begin': n, 'fails': fails}
 
 
+async def http_scenario(name, immediate):
+    """A really listening application on the loopback interface, a real HTTP client with a diff request in flight (the
+    upstream fetch is a local stand-in, the differ runs in a real worker), then shutdown: graceful must deliver the
+    normal 200 response to the client, immediate must answer or close - and no worker may stay alive."""
+    import concurrent.futures
+    import tornado.httpclient
+    import tornado.netutil
+    import tornado.httpserver
+    import web_monitoring_diff.server.server as df
+    created = []
+    real = concurrent.futures.ProcessPoolExecutor
+
+    class Tracking(real):
+        def __init__(self, *a, **k):
+            super().__init__(*a, **k)
+            created.append(self)
+
+    class Upstream:
+        max_body_size = 0
+
+        async def fetch(self, url, **kwargs):
+            import io
+            req = tornado.httpclient.HTTPRequest(url)
+            return tornado.httpclient.HTTPResponse(req, 200, headers=tornado.httputil.HTTPHeaders({'Content-Type': 'text/html'}),
+                                                   buffer=io.BytesIO(b'<p>%s</p>' % url.encode()))
+    saved_client = df.get_http_client
+    concurrent.futures.ProcessPoolExecutor = Tracking
+    df.concurrent.futures.ProcessPoolExecutor = Tracking
+    df.get_http_client = lambda: Upstream()
+    df.DIFF_ROUTES['slow_probe'] = slow_diff
+    fails = []
+    try:
+        app = df.make_app()
+        sock, port = tornado.testing.bind_unused_port()
+        app.server = tornado.httpserver.HTTPServer(app)
+        app.server.add_sockets([sock])
+        client = tornado.httpclient.AsyncHTTPClient(force_instance=True)
+        url = 'http://127.0.0.1:%d/slow_probe?a=http://up.test/a&b=http://up.test/b&seconds=%s' % (port, '5' if immediate else '1.0')
+        fut = asyncio.ensure_future(client.fetch(url, raise_error=False, request_timeout=20))
+        await asyncio.sleep(0.5)
+        pids = []
+        for p in created:
+            pids += list((p._processes or {}).keys())
+        n = len(created)
+        t0 = time.time()
+        await app.shutdown(immediate=immediate)
+        try:
+            resp = await asyncio.wait_for(fut, 10)
+            code = resp.code
+        except Exception as e:  # noqa
+            code = 'client error %s' % type(e).__name__
+        if not immediate and code != 200:
+            fails.append('graceful shutdown: the client of the running diff got %s instead of 200' % (code,))
+        if immediate and code == 200:
+            fails.append('immediate shutdown: the killed diff was answered with 200')
+        if immediate and time.time() - t0 > 4:
+            fails.append('immediate shutdown waited for the running diff')
+        if len(created) > n:
+            fails.append('%d pool(s) created after shutdown began' % (len(created) - n))
+        for p in created:
+            pids += list((p._processes or {}).keys())
+        if not await wait_dead(set(pids)):
+            fails.append('worker processes still alive after shutdown')
+        client.close()
+        print('%-34s %s' % (name, 'ok (client got %s)' % code if not fails else 'FAILED: ' + '; '.join(fails)), flush=True)
+        return not fails
+    finally:
+        concurrent.futures.ProcessPoolExecutor = real
+        df.concurrent.futures.ProcessPoolExecutor = real
+        df.get_http_client = saved_client
+        df.DIFF_ROUTES.pop('slow_probe', None)
+        for p in created:
+            for child in list((p._processes or {}).values()):
+                try:
+                    child.kill()
+                except Exception:  # noqa
+                    pass
+
+
 def main():
     scenarios = [('idle, graceful', s_idle), ('busy, graceful', s_graceful_busy), ('busy, immediate', s_immediate_busy),
                  ('busy, graceful then immediate', s_escalate), ('before any pool exists', s_before_pool),
@@ -221,6 +303,12 @@ def main():
     for name, fn in scenarios:
         try:
             ok = asyncio.run(asyncio.wait_for(scenario(name, fn), 60)) and ok
+        except Exception as e:  # noqa
+            print('%-34s FAILED: probe raised %s: %s' % (name, type(e).__name__, e), flush=True)
+            ok = False
+    for name, immediate in (('HTTP request in flight, graceful', False), ('HTTP request in flight, immediate', True)):
+        try:
+            ok = asyncio.run(asyncio.wait_for(http_scenario(name, immediate), 60)) and ok
         except Exception as e:  # noqa
             print('%-34s FAILED: probe raised %s: %s' % (name, type(e).__name__, e), flush=True)
             ok = False
